@@ -202,7 +202,21 @@ def correspondence(ctx):
     for _ in range(nprog):
         src = g.program()
         progs.append({'src': src, 'queries': gen_queries(rng, src, ctx.tier)})
+    # explicit other code on the same report
+    for k, pr in enumerate(progs):
+        if k % 4 == 0:
+            pr['other'] = progs[(k + 7) % len(progs)]['src']
+            pr['other_queries'] = [['ast', a] for a in ('For', 'Call', 'Assign', 'If', 'BinOp', 'Name')] + \
+                                  [['op', o] for o in ('+', '==', '<=', 'and', 'not')] + [['call', c] for c in ('print', 'len', 'foo')]
     res = vlib.run_impl('c08_impl.py', {'programs': progs, 'symbols': SYMS})
+    for pr, r in zip(progs, res['programs']):
+        for (kind, arg), rec in zip(pr.get('other_queries', []), r.get('other', [])):
+            ctx.count('query-on-other-code')
+            if rec.get('history') != rec.get('fresh'):
+                ctx.violation('other-code-query-depends-on-report-history',
+                              {'submission': pr['src'], 'other': pr['other'], 'query': [kind, arg], 'observed': rec,
+                               'why': 'after verify() of the submission, the %s query %r about OTHER code finds lines %s; on a fresh report the same '
+                                      'query about the same code finds lines %s' % (kind, arg, rec.get('history'), rec.get('fresh'))})
     livesyms = res['symbols']
     # (a) the CPython specification table of the model vs the live interpreter
     bad = ctx.coq_cases('cpytable', CPY_HEADER,
